@@ -19,12 +19,13 @@ def model_check(tier, wd, seed, log):
     d = os.path.join(wd, "q")
     os.makedirs(d, exist_ok=True)
     shutil.copy(os.path.join(common.SPEC, "QueueCtx.tla"), d)
+    shutil.copy(os.path.join(common.SPEC, "QueueAccounting.tla"), d)
     confs = [("q_small", 2, 1, 2, 8), ("q_three", 3, 1, 2, 8)] if tier == "quick" else [("q_small", 2, 2, 2, 10), ("q_three", 3, 1, 3, 10), ("q_wide", 4, 2, 3, 9)]
     runs, scheds = [], []
     for name, nc, nj, ni, ops in confs:
         with open(os.path.join(d, name + ".cfg"), "w") as f:
             f.write("SPECIFICATION Spec\nCONSTANTS\n  NC = %d\n  NJ = %d\n  NI = %d\n  MaxOps = %d\nVIEW View\nINVARIANT C20_OK\n"
-                    "INVARIANT Accounting\nINVARIANT FinishedFlag\nINVARIANT PrintLeaf\nCHECK_DEADLOCK FALSE\n" % (nc, nj, ni, ops))
+                    "INVARIANT Accounting\nINVARIANT FinishedFlag\nINVARIANT RefinesQueueAccounting\nINVARIANT PrintLeaf\nCHECK_DEADLOCK FALSE\n" % (nc, nj, ni, ops))
         t0 = time.time()
         env = dict(os.environ, JAVA_TOOL_OPTIONS="-Dtlc2.tool.queue.IStateQueue=MemStateQueue")
         p = subprocess.run(["tlc", "-workers", str(common.NCPU), "-metadir", os.path.join(d, "meta-" + name), "-noGenerateSpecTE",
@@ -86,6 +87,9 @@ def run_pipeline(tier, seed, log):
     t0 = time.time()
     wd = common.workdir("queue-%s-%d" % (tier, seed))
     runs, scheds = model_check(tier, wd, seed, log)
+    import apalache
+    lemma = apalache.discharge(wd, log, module="QueueAccounting", obligations=apalache.QUEUE_OBLIGATIONS, cinit=(),
+                               what="for any number of items, consumers and joiners")
     ntlc = len(scheds)
     cap = 60000 if tier == "thorough" else 8000
     if len(scheds) > cap:
@@ -112,6 +116,9 @@ def run_pipeline(tier, seed, log):
     res = {"tlc": runs, "conformance": conf, "traces": len(good), "viol": [], "hits": {}, "nontrivial": 0, "harness_errors": [r["err"] for r in bad][:3],
            "judge_states": st[0], "judge_transitions": st[1], "samples": [s["cmds"][:30] for s, _ in good[:2]], "tlc_behaviours": ntlc,
            "drift_samples": [{"drift": r["drift"], "cmds": s["cmds"][: r["drift"]["pos"] + 1]} for s, r in tl if r["drift"]][:2]}
+    res["lemma"] = lemma
+    for ob in lemma["refuted"]:
+        res["viol"].append({"c": "C20.model", "kf": "", "at": 0, "ent": -1, "driver": "apalache:" + ob, "replay": "-"})
     for r in runs:
         for v in r["violated"]:
             res["viol"].append({"c": v, "kf": "", "at": 0, "ent": -1, "driver": "tlc-mc:" + r["config"], "replay": r["counterexample"]})
@@ -162,7 +169,8 @@ def check(pid, tier, seed, t0, finish):
                    "cancellations per event-loop handle) run on the real Queue; non-trivial = a consumer was cancelled while waiting or "
                    "inside the block, a body raised, or a join completed",
            "samples": res["samples"], "model_checking_runs": res["tlc"], "model_conformance": res["conformance"],
-           "model_drift_samples": res["drift_samples"], "clause_hits": res["hits"], "exhaustive": False}
+           "model_drift_samples": res["drift_samples"], "clause_hits": res["hits"], "exhaustive": False,
+           "unbounded_lemma_apalache": res.get("lemma", {})}
     assumptions = ["CPython 3.12 asyncio.Queue / Event internals as modelled in spec/QueueCtx.tla (measured by lock-step replay)",
                    "unbounded queue (maxsize 0); producers use put_nowait"]
     return finish(pid, tier, seed, "model_checking", cov, assumptions, mine, {}, t0)
